@@ -165,10 +165,16 @@ Definition dmn_spec (args : list val) : val :=
           if hasb v 8 && hasb f VF_PROTOCOL_FEATURES then
             let v := swalk {| ss_rings := repeat {| sr_started := false; sr_enabled := false; sr_kick := None; sr_size := maxq; sr_next_avail := 0 |} (N.to_nat nq);
                               ss_pending := []; ss_masks := ms; ss_features := f |} steps obs in
-            if v =? 17 then VS "false:C17" else if v =? 28 then VS "false:C11,C17" else if negb (v =? 0) then VS "false:C11"
-            else
-              let w := mwalk (minit nq maxq f) steps obs in
-              if w =? 0 then VS "true" else if w =? 5 then VS "false:C05" else if w =? 9 then VS "false:C09" else if w =? 13 then VS "false:C13" else if w =? 15 then VS "false:C15" else VS "false:C14"
+            (* both walks are evaluated over the whole history: a run can falsify the ring clauses (C11 / C17) and the
+               memory / log / configuration clauses (C05, C09, C13, C14, C15) at once, and each property's own check must see it *)
+            let ring_tag := if v =? 17 then "C17" else if v =? 28 then "C11,C17" else if negb (v =? 0) then "C11" else "" in
+            let w := mwalk (minit nq maxq f) steps obs in
+            let mem_tag := if w =? 0 then "" else if w =? 5 then "C05" else if w =? 9 then "C09" else if w =? 13 then "C13"
+                           else if w =? 15 then "C15" else "C14" in
+            if String.eqb ring_tag "" && String.eqb mem_tag "" then VS "true"
+            else if String.eqb ring_tag "" then VS (String.append "false:" mem_tag)
+            else if String.eqb mem_tag "" then VS (String.append "false:" ring_tag)
+            else VS (String.append "false:" (String.append ring_tag (String.append "," mem_tag)))
           else VS "n/a"
       | _, _ => VS "n/a"
       end
